@@ -127,12 +127,61 @@ pub fn run(seed: u64, tier: &str, w: &mut dyn Write) -> usize {
         vec![(0, 7, 9), (3, 31, 23)]
     };
     let mut built = vec![];
+    // an extra base with MANY queries on a small circuit (repeated query indices guaranteed); config index usize::MAX
+    let mut bases = bases;
+    bases.push((usize::MAX, 3, 61));
+    let many = {
+        let fri = fri_config(3, 1, 1, plonky2::fri::reduction_strategies::FriReductionStrategy::ConstantArityBits(2, 2), 40);
+        plonky2::plonk::circuit_data::CircuitConfig { security_bits: 100, fri_config: fri, ..plonky2::plonk::circuit_data::CircuitConfig::standard_recursion_config() }
+    };
     for (bi, (ci, kinds, stride)) in bases.iter().enumerate() {
-        let p = gen_program(&mut r, 10 + 5 * bi, *kinds);
-        let b = match build_and_prove(&p, &cfgs[*ci].1) { Ok(b) => b, Err(_) => continue };
+        let p = gen_program(&mut r, if *ci == usize::MAX { 8 } else { 10 + 5 * bi }, *kinds);
+        let b = match build_and_prove(&p, if *ci == usize::MAX { &many } else { &cfgs[*ci].1 }) { Ok(b) => b, Err(_) => continue };
         let root = serde_json::to_value(&b.proof).unwrap();
         writeln!(w, "c03 0 {bi} base - = {}", verdict(&b.data, b.proof.clone())).unwrap();
         n += 1 + sweep(w, &mut r, 0, bi, &root, *stride, &|v| verdict_plain(&b.data, v, &b.proof));
+        // query rounds that repeat the index of an EARLIER round carry their own copy of every opening: each copy
+        // has to be authenticated. One value per opening class of the later copy (and of the first copy) is altered.
+        if let Ok(chs) = catch_unwind(AssertUnwindSafe(|| b.proof.get_challenges(b.proof.get_public_inputs_hash(), &b.data.verifier_only.circuit_digest, &b.data.common))) {
+            if let Ok(chs) = chs {
+                let idx = &chs.fri_challenges.fri_query_indices;
+                let mut pairs: Vec<(usize, usize)> = vec![];
+                for j in 0..idx.len() { if let Some(i) = (0..j).find(|&i| idx[i] == idx[j]) { pairs.push((i, j)); } }
+                let total = pairs.len();
+                for (i, j) in pairs.into_iter().take(if tier == "thorough" { 6 } else { 2 }) {
+                    for (tag, round) in [("first", i), ("repeat", j)] {
+                        let nor = b.proof.proof.opening_proof.query_round_proofs[round].initial_trees_proof.evals_proofs.len();
+                        for oi in 0..nor {
+                            let mut edits: Vec<(String, Value)> = vec![];
+                            let pre = format!("/proof/opening_proof/query_round_proofs/{round}/initial_trees_proof/evals_proofs/{oi}");
+                            edits.push((format!("{pre}/0/0"), Value::Null));
+                            edits.push((format!("{pre}/1/siblings/0/elements/1"), Value::Null));
+                            for (ptr, _) in edits {
+                                let mut t = root.clone();
+                                let Some(cur) = t.pointer_mut(&ptr) else { continue };
+                                let old = cur.as_u64().unwrap_or(0);
+                                *cur = Value::from(if old % P == P - 1 { 0 } else { old % P + 1 });
+                                writeln!(w, "c03 0 {bi} v0 repeated-index-{tag}-copy{} = {}", ptr.replace(&format!("/{round}/"), "/N/"), verdict_plain(&b.data, t, &b.proof)).unwrap();
+                                n += 1;
+                            }
+                        }
+                        let ns = b.proof.proof.opening_proof.query_round_proofs[round].steps.len();
+                        for si in 0..ns {
+                            for ptr in [format!("/proof/opening_proof/query_round_proofs/{round}/steps/{si}/evals/0/0"),
+                                        format!("/proof/opening_proof/query_round_proofs/{round}/steps/{si}/merkle_proof/siblings/0/elements/2")] {
+                                let mut t = root.clone();
+                                let Some(cur) = t.pointer_mut(&ptr) else { continue };
+                                let old = cur.as_u64().unwrap_or(0);
+                                *cur = Value::from(if old % P == P - 1 { 0 } else { old % P + 1 });
+                                writeln!(w, "c03 0 {bi} v0 repeated-index-{tag}-copy{} = {}", ptr.replace(&format!("/{round}/"), "/N/"), verdict_plain(&b.data, t, &b.proof)).unwrap();
+                                n += 1;
+                            }
+                        }
+                    }
+                }
+                writeln!(w, "c03info {bi} repeated query indices: {total} of {} rounds repeat an earlier index", idx.len()).unwrap();
+            }
+        }
         if let Ok(Ok(comp)) = catch_unwind(AssertUnwindSafe(|| b.data.compress(b.proof.clone()))) {
             let croot = serde_json::to_value(&comp).unwrap();
             let base = match catch_unwind(AssertUnwindSafe(|| b.data.verify_compressed(comp.clone()))) {
